@@ -74,7 +74,7 @@ def run(repo: str, cdir: str, keys: Optional[List[str]] = None, props: Optional[
     allc = {**side.contracts, **side.lemmas}
     sel = []
     for k, con in allc.items():
-        if con.trusted:
+        if con.trusted or con.bounded:
             continue
         if keys is not None and k not in keys:
             continue
